@@ -53,7 +53,7 @@ def tree_writes(f, fn, owner):
                 w.update(writes(r))
         if depth < 2:
             for c in f.callees.get(d, []):
-                if c.startswith(base + '::') or c.startswith(base + '<') or c.startswith(d + '::{closure'):
+                if c.startswith(base + '::') or c.startswith(base + '<') or c.startswith('<' + base) or c.startswith(d + '::{closure'):
                     go(c, depth + 1)
         for c in f.fn_index:
             if c.startswith(d + '::{closure'):
